@@ -516,6 +516,7 @@ pub mod simstd {
                     if !exists {
                         if writing && (self.create || self.create_new) {
                             w.fs.insert(path.clone(), Vec::new());
+                            crate::world::mirror_put(&path, b"");
                             ev!(w, "create {}", path);
                         } else {
                             w.bump("enoent_fired");
@@ -525,6 +526,7 @@ pub mod simstd {
                     } else if writing && self.truncate {
                         let old = w.fs.get(&path).map(|v| v.len()).unwrap_or(0);
                         w.fs.insert(path.clone(), Vec::new());
+                        crate::world::mirror_put(&path, b"");
                         ev!(w, "truncate {} (was {} bytes)", path, old);
                     } else {
                         ev!(w, "open {} ({})", path, if writing { "w" } else { "r" });
@@ -767,7 +769,10 @@ pub mod simstd {
             with_world(|w| {
                 ev!(w, "unlink {}", path);
                 match w.fs.remove(&path) {
-                    Some(_) => Ok(()),
+                    Some(_) => {
+                        crate::world::mirror_remove(&path);
+                        Ok(())
+                    }
                     None => Err(io::Error::from_raw_os_error(libc::ENOENT)),
                 }
             })
@@ -780,6 +785,8 @@ pub mod simstd {
                 ev!(w, "rename {} {}", from, to);
                 match w.fs.remove(&from) {
                     Some(v) => {
+                        crate::world::mirror_remove(&from);
+                        crate::world::mirror_put(&to, &v);
                         w.fs.insert(to, v);
                         Ok(())
                     }
@@ -1132,6 +1139,106 @@ pub mod simclap {
 }
 
 // ---------------------------------------------------------------------------
+// Mirror of the simulated file system on the real one.  Reads and writes of the code under
+// test go through the facade above; but `std::path::Path::{exists, is_file, metadata, ...}`
+// ask the REAL file system.  So that such questions get the simulated answer, the process
+// works inside a private scratch directory (tmpfs) in which, at the start of every simulated
+// execution, exactly the files of the simulated file system exist (with their contents), and
+// creations / removals / renames through the facade are mirrored as they happen.
+// ---------------------------------------------------------------------------
+
+static SANDBOX: Mutex<Option<::std::path::PathBuf>> = Mutex::new(None);
+static MIRRORED: Mutex<Vec<String>> = Mutex::new(Vec::new());
+
+fn mirrorable(path: &str) -> bool {
+    !path.is_empty() && !path.starts_with('/') && !path.split('/').any(|c| c == ".." || c == "." || c.is_empty())
+}
+
+/// Enters (creating it if need be) this process's scratch directory.  Call once, after all
+/// arguments that name real files have been read.
+pub fn sandbox_enter() {
+    let mut g = SANDBOX.lock().unwrap_or_else(|e| e.into_inner());
+    if g.is_some() {
+        return;
+    }
+    let base = if ::std::path::Path::new("/dev/shm").is_dir() { ::std::path::PathBuf::from("/dev/shm") } else { ::std::env::temp_dir() };
+    let dir = base.join(format!("chiritori-sim-{}", ::std::process::id()));
+    if ::std::fs::create_dir_all(&dir).is_ok() && ::std::env::set_current_dir(&dir).is_ok() {
+        *g = Some(dir);
+    }
+}
+
+/// Removes the scratch directory (worker exit).
+pub fn sandbox_leave() {
+    let mut g = SANDBOX.lock().unwrap_or_else(|e| e.into_inner());
+    if let Some(dir) = g.take() {
+        let _ = ::std::env::set_current_dir("/");
+        let _ = ::std::fs::remove_dir_all(dir);
+    }
+}
+
+/// New scenario: nothing of an earlier scenario may be left in the scratch directory.
+pub fn sandbox_reset() {
+    let g = SANDBOX.lock().unwrap_or_else(|e| e.into_inner());
+    if let Some(dir) = g.as_ref() {
+        if let Ok(rd) = ::std::fs::read_dir(dir) {
+            for e in rd.flatten() {
+                let p = e.path();
+                if p.is_dir() {
+                    let _ = ::std::fs::remove_dir_all(&p);
+                } else {
+                    let _ = ::std::fs::remove_file(&p);
+                }
+            }
+        }
+        MIRRORED.lock().unwrap_or_else(|e| e.into_inner()).clear();
+    }
+}
+
+fn sandbox_active() -> bool {
+    SANDBOX.lock().unwrap_or_else(|e| e.into_inner()).is_some()
+}
+
+fn mirror_put(path: &str, content: &[u8]) {
+    if !mirrorable(path) {
+        return;
+    }
+    if let Some((dir, _)) = path.rsplit_once('/') {
+        let _ = ::std::fs::create_dir_all(dir);
+    }
+    if ::std::fs::write(path, content).is_ok() {
+        let mut m = MIRRORED.lock().unwrap_or_else(|e| e.into_inner());
+        if !m.iter().any(|x| x == path) {
+            m.push(path.to_string());
+        }
+    }
+}
+
+fn mirror_remove(path: &str) {
+    if !mirrorable(path) {
+        return;
+    }
+    let _ = ::std::fs::remove_file(path);
+    MIRRORED.lock().unwrap_or_else(|e| e.into_inner()).retain(|x| x != path);
+}
+
+/// Makes the scratch directory hold exactly `fs`.
+fn mirror_sync(fs: &Fs) {
+    if !sandbox_active() {
+        return;
+    }
+    let old: Vec<String> = MIRRORED.lock().unwrap_or_else(|e| e.into_inner()).clone();
+    for p in old {
+        if !fs.contains_key(&p) {
+            mirror_remove(&p);
+        }
+    }
+    for (p, c) in fs {
+        mirror_put(p, c);
+    }
+}
+
+// ---------------------------------------------------------------------------
 // One simulated process execution
 // ---------------------------------------------------------------------------
 
@@ -1235,6 +1342,7 @@ pub fn install_panic_hook() {
 pub fn execute(fs: &mut Fs, ex: &Exec, entry: fn()) -> Outcome {
     // environment (process-global; this worker runs one execution at a time)
     install_env(&ex.env);
+    mirror_sync(fs);
     let (stdin, tty) = match &ex.stdin {
         StdinSpec::Tty => (Vec::new(), true),
         StdinSpec::Pipe(s) => (s.clone().into_bytes(), false),
